@@ -115,6 +115,12 @@ func (r *scanner) rangeWithLimit(ctx context.Context, start []byte, end []byte, 
 	if err != nil {
 		return nil, err
 	}
+	// check again: the iterator of an engine without timestamp snapshots is taken after
+	// the first check, so a compaction started in between may already have removed data
+	err = r.checkCompactRace(ctx, revision, false)
+	if err != nil {
+		return nil, err
+	}
 	return receiver.result, nil
 }
 
@@ -290,6 +296,15 @@ func (r *scanner) scan(ctx context.Context, start []byte, end []byte, revision u
 	for _, e := range errList {
 		if e != nil {
 			return 0, e
+		}
+	}
+
+	if !compact {
+		// check again: the iterators of an engine without timestamp snapshots are taken after
+		// the first check, so a compaction started in between may already have removed data
+		err = r.checkCompactRace(ctx, revision, false)
+		if err != nil {
+			return 0, err
 		}
 	}
 
